@@ -1,5 +1,6 @@
 import ALock.Lemmas.RwLockWord
 import ALock.Lemmas.AtomicRwLock
+import ALock.Lemmas.AtomicRwLockHB
 
 /-!
 # C02 — RwLock: many readers xor one writer, at most one upgradable reader
@@ -21,8 +22,12 @@ operations** of `src/rwlock/raw.rs` on `RawRwLock::state` (and acquisitions / re
 mutex) by any number of threads, including the states *inside* an operation.  It is tied to the code
 by the site table extracted from /repo's sources on every run (`C02_shape_ok`).
 
-Not covered: the happens-before clause for the RwLock (the orderings are in the generated table but
-no view theorem is stated for them; the loom scenarios search for a missing edge).
+The happens-before clause is `C02_hb` (`Atomic/RwLockHB.lean`): the agents of that model decorated
+with release/acquire views; which operations acquire and which release is read from the site table
+(`C02_ord_ok`).  Every critical section under a write guard happens-before every later access
+(shared or exclusive), and every critical section under shared access happens-before every later
+write guard.  The inner mutex is not used for synchronisation in that model (it could only add
+edges).
 -/
 
 namespace ALock.RwLock
@@ -107,6 +112,44 @@ theorem C02_interleaved (l : List Step) :
 theorem C02_interleaved_word (l : List Step) :
     (run {} l).state = bits (run {} l).ags + 2 * readers (run {} l).ags :=
   (run_inv {} l init_inv).word
+
+/-- the orderings at the ten synchronising sites of `src/rwlock/raw.rs` are at least Acquire /
+Release (generated table) -/
+theorem C02_ord_ok : ords.ok := by unfold Ords.ok; decide
+
+/-- **C02 (happens-before).** Under every interleaving: whoever has access — a read guard, an
+upgradable guard, a write guard (also one that is being downgraded) — has every critical section
+completed under a write guard in its view; a write guard moreover has every critical section
+completed under shared access in its view.  So everything done under a write guard happens-before
+everything done under any later guard, and everything done under a read guard happens-before
+everything done under a later write guard. -/
+theorem C02_hb (l : List StepV) :
+    ∀ a ∈ (runV ords {} l).ags, (a.pc.sh = 1 ∨ a.pc = .w) →
+      (∀ k ∈ (runV ords {} l).doneW, k ∈ a.view) ∧
+      (a.pc = .w → ∀ k ∈ (runV ords {} l).doneR, k ∈ a.view) := by
+  have h := (runV_vi ords C02_ord_ok {} l init_inv init_vi).2
+  intro a ha hacc
+  refine ⟨h.A a ha ?_, fun hw => h.B a ha hw⟩
+  rcases hacc with h1 | h1
+  · exact Or.inl h1
+  · rw [h1]; exact acc_w
+
+/-- non-vacuity: a write section, the writer downgrades and reads, a second reader, both leave,
+a second writer (through `write().await`: fetch_or, then the check) — it has all three sections -/
+example :
+    let s := runV ords {} [.op .spawn, .op .spawn, .op .spawn,
+      .op (.mLock 0), .op (.wCas0 0), .wcrit 0, .op (.dgW1 0), .op (.rLoad 1), .op (.rCas 1),
+      .rcrit 1, .op (.dgW2 0), .rcrit 0, .op (.mLock 2), .op (.wFetchOr 2), .op (.rUnlock 0),
+      .op (.wCheck 2), .op (.rUnlock 1), .op (.wCheck 2), .wcrit 2]
+    s.doneW = [3, 0] ∧ s.doneR = [2, 1] ∧ (s.ags.map (·.view)).getLast? = some [3, 0, 0, 2, 0, 1, 0] := by
+  decide
+
+/-- with a relaxed `read_unlock` the writer does not see the read section: the model distinguishes -/
+example :
+    let o : Ords := { ords with relReadUnlock := false }
+    let s := runV o {} [.op .spawn, .op .spawn, .op (.rLoad 0), .op (.rCas 0), .rcrit 0,
+      .op (.rUnlock 0), .op (.mLock 1), .op (.wCas0 1)]
+    s.doneR = [0] ∧ (s.ags.map (·.view)) = [[0], []] := by decide
 
 /-- non-vacuity: a reader races with a writer that waits for it; an upgradable reader upgrades;
 the write guard is downgraded step by step -/
